@@ -282,6 +282,7 @@ class CommandCtx:
             "mode": "tree" if tree is not None else "command", "short": use_short,
             "argv": full_argv, "env": env, "toml": toml, "observed": shown,
             "type_class": o.tclass, "annotation": "top-level Annotated" if o.decl.annot_toplevel else "plain",
+            "file_key": o.key, "declared_by": o.decl.owner, "sources_kept_from": o.decl.sources_from,
         }
         flags = {"kind": o.kind, "annot": o.decl.annot_toplevel, "meta": o.decl.gallia_field,
                  "fileKey": o.key is not None, "positional": bool(o.decl.positional),
